@@ -23,7 +23,8 @@
 (*     fixed, so a write begun at or beyond the end transfers nothing.     *)
 (*     The position advances by the number of bytes transferred.  A        *)
 (*     transfer cut short by the end of the view (0 <= pos and fewer bytes *)
-(*     left than asked for) carries a truncation warning.                  *)
+(*     left than asked for) carries a truncation warning, and at a         *)
+(*     position inside 0..VLen a truncation warning means just that.       *)
 (*   - v[a:b] is a new view of the addresses Python's sequence slicing     *)
 (*     names in a sequence of length VLen: indices clipped into 0..VLen,   *)
 (*     negative ones counted from the end, a reversed pair is empty.       *)
